@@ -1210,6 +1210,10 @@ class Run:
                 if oid in self.strobjs:
                     return len(self.bufs[('O', oid)]) - 1
                 return self.objlen[oid]
+            if name in ('cap', 'capacity') and not e.get('a') and oid not in self.strobjs:
+                # the modelled array has no slack: its capacity is its length (the real capacity is at least that, so every
+                # path the model takes for "fits" is a path the real code can take)
+                return self.objlen[oid]
             if oid in self.strobjs and (e.get('op') in ('<<', '+=') or name in ('append', 'operator<<', 'operator+=')) and 1 <= len(e.get('a', [])) <= 2:
                 # text appended to a local String: a character, a C string (optionally n characters of it) or another String
                 buf = self.bufs[('O', oid)]
